@@ -267,7 +267,7 @@ impl<'a> TraceGen<'a> {
                 };
                 format!("{}at {}.{}({}:{})", indent, c, m, rng.pick(&["SourceFile", "Main(1).java", "a(b", "x)y", "(", "F.java"]), num)
             }
-            _ => format!("{}at {}.{}({}:{})", indent, c, m, rng.pick(&["SourceFile", "Foo.java", "<unknown>", "a b", "Main(1).java", "a(b"]), self.line(rng)),
+            _ => format!("{}at {}.{}({}:{})", indent, c, m, rng.pick(&["SourceFile", "Foo.java", "<unknown>", "a b", "Main(1).java", "a(b", "", "F"]), self.line(rng)),
         }
     }
     /// free-form trace text
@@ -2258,7 +2258,8 @@ pub fn gen_c19(rng: &mut Rng, tier: &str, out: &mut Out) {
             2 => {
                 // repeated / malformed headers
                 for _ in 0..rng.below(8) {
-                    let k = rng.pick(&["compiler", "compiler_version", "min_api", "other", " compiler ", "Compiler"]);
+                    let k = rng.pick(&["compiler", "compiler_version", "min_api", "other", " compiler ", "Compiler", "min-api", "minApi", "min_api_level", "min api", "compiler-version", "compilerVersion",
+                        "compiler version", "compilers", "pg_map_id", "MIN_API", "min_api\u{a0}"]);
                     let v = rng.pick(&["R8", "1.2.3", "15", "+7", "abc", "", "4294967295", "4294967296", "-1", " 21 ", "١٢"]);
                     match rng.below(3) {
                         0 => t.extend_from_slice(format!("# {}: {}\n", k, v).as_bytes()),
@@ -2298,6 +2299,17 @@ pub fn gen_c19(rng: &mut Rng, tier: &str, out: &mut Out) {
                 out.d(format!("META {}", hx(&t)));
                 out.count("long_runs_before_line_info");
             }
+        }
+    }
+    // the file's only line-mapped method starts in the middle of a physical line
+    for two in [&b"o.A -> a:    1:5:void run():10:14 -> b\n"[..], b"o.A -> a:    1:5:void run():10:14 -> b", b"# {\"id\":\"sourceFile\",\"fileName\":\"X\"}    1:5:void run() -> b\n",
+                b"o.A -> a:\r    1:5:void run() -> b", b"o.A -> a:    void run() -> b\n", b"o.A -> a: 1:5:void run() -> b\n"] {
+        for pre in [&b""[..], b"# c: v\n", b"o.Z -> z:\n    void m() -> k\n"] {
+            let mut t = pre.to_vec();
+            t.extend_from_slice(two);
+            t.extend_from_slice(b"    int f -> g\n");
+            out.d(format!("META {}", hx(&t)));
+            out.count("mid_line_records");
         }
     }
     // physical lines that yield two items (text after a class colon / after a sourceFile header)
